@@ -184,7 +184,7 @@ def one_run(sandbox, rid, kind, ir_path, argv_or_cfg, variant, trace=False, stal
     cwd, tmp, home = (os.path.join(box, n) for n in ("cwd", "tmp", "home"))
     for d in (cwd, tmp, home):
         os.makedirs(d)
-    outname = ["out", "o", "generated-output-directory-with-a-long-name", "out.d"][variant % 4]
+    outname = ["out", "o", "generated-output-directory-with-a-long-name", "out.d", "src", "lib.rs", "mod"][variant % 7]
     outdir = os.path.join(box, "w", outname)
     os.makedirs(os.path.join(box, "w"))
     if stale_from is not None:
